@@ -20,6 +20,7 @@ func propC06(w *World, r *Report) {
 	RunFirstMatch(w, r)
 	RunScratchDiscipline(w, r)
 	RunTextAppend(w, r)
+	RunFreshSlot(w, r, w.LibFuncs())
 	RunFlagPrecedence(w, r)
 	RunFlagClass(w, r)
 	RunLookaheadBound(w, r)
@@ -53,6 +54,7 @@ func propC06(w *World, r *Report) {
 	RunKeepPerLookup(w, r, gt)
 	RunSkipExit(w, r, newBoundsRun(w), gt)
 	RunLookaheadSkip(w, r, gt)
+	RunReverseScan(w, r)
 	r.Floor("skipexit", 15)
 	r.Floor("emptyrecord", 2)
 	r.Floor("covgate", 15)
@@ -79,6 +81,7 @@ func propC07(w *World, r *Report) {
 	RunStackTypestate(w, r, e)
 	RunScratchDiscipline(w, r)
 	RunTextAppend(w, r)
+	RunFreshSlot(w, r, w.LibFuncs())
 	checkBufReset(w, r)
 
 	// index safety and termination of the shaping engine (prover, E1/E2)
